@@ -1087,3 +1087,92 @@ Qed.
 
 Lemma source_tables_ok_lemma : source_tables_ok = true.
 Proof. vm_compute. reflexivity. Qed.
+
+(* ------------------------------------------------------------------ the surfaces: refinement over histories *)
+Lemma mh_step_no_oom s m : snd (mh_step s m) <> RErr EOutOfMemory.
+Proof.
+  destruct m as [n|h|h off|h off v|h]; cbn [mh_step snd].
+  - unfold mh_alloc. destruct (n =? 0); [cbn; discriminate|]. destruct (allocation_bytes n); [|cbn; discriminate].
+    destruct (negb (bytes s + n0 <? USIZE)); [cbn; discriminate|].
+    destruct (free_list s) as [|idx rest]; [cbn; discriminate|].
+    destruct (idx <? N.of_nat (length (allocs s))); cbn; discriminate.
+  - unfold mh_free. destruct (nth_N (allocs s) h) as [sl|]; [destruct (sl_freed sl)|]; cbn; discriminate.
+  - unfold mh_load. destruct (nth_N (allocs s) h) as [sl|]; [destruct (sl_freed sl); [|destruct (nth_N (sl_data sl) off)]|]; discriminate.
+  - unfold mh_store. destruct (nth_N (allocs s) h) as [sl|]; [destruct (sl_freed sl); [|destruct (N.of_nat (length (sl_data sl)) <=? off)]|]; cbn; discriminate.
+  - unfold mh_size. destruct (nth_N (allocs s) h) as [sl|]; [destruct (sl_freed sl)|]; discriminate.
+Qed.
+
+Lemma vm_spec_refines_lemma sf maxh gc s sp o :
+  maxh < USIZE -> Inv s -> Sim s sp ->
+  Inv (fst (vm_step sf maxh gc s o))
+  /\ snd (vspec_step sf sp o (snd (vm_step sf maxh gc s o))) = snd (vm_step sf maxh gc s o)
+  /\ Sim (fst (vm_step sf maxh gc s o)) (fst (vspec_step sf sp o (snd (vm_step sf maxh gc s o)))).
+Proof.
+  intros Hm HI HS. split; [apply vm_step_inv; assumption|].
+  unfold vspec_step.
+  destruct (vm_step_cases sf maxh gc s o Hm) as [[m [Hr [Hfit Heq]]]|[[H1 [H2 H3]]|[H1 [H2 H3]]]].
+  - (* a raw step *)
+    rewrite Hr, Heq. destruct (mh_refines_lemma s sp m HI HS Hfit) as [_ [Ha Hb]].
+    pose proof (mh_step_no_oom s m) as Hno.
+    destruct m as [n|h|h off|h off v|h]; auto.
+    destruct (snd (mh_step s (MAlloc n))) as [| | | |e|] eqn:Er; auto.
+    destruct e; auto. congruence.
+  - (* an error that changes nothing *)
+    destruct (vop_raw o) as [m|] eqn:Hr.
+    + (* the operands were fine: only the heap limit can have refused, and only an allocation *)
+      destruct (vm_refines_lemma sf maxh gc s sp o Hm HI HS) as [_ Hv]. rewrite Hr in Hv.
+      destruct Hv as [Hoom|[Ha Hb]].
+      * rewrite Hoom. cbn [fst snd].
+        assert (Hal : exists n, m = MAlloc n).
+        { destruct o as [a|a|h off|h off v]; cbn [vop_raw] in Hr.
+          - destruct a as [z| |]; try discriminate. destruct (0 <? z)%Z; inversion Hr. eauto.
+          - exfalso. destruct a as [z| |]; try discriminate. destruct (0 <=? z)%Z eqn:Ez; [|discriminate].
+            assert (Hst : vm_step sf maxh gc s (VFree (AInt z)) = mh_step s (MFree (Z.to_N z)))
+              by (destruct sf; cbn [vm_step mh_step]; replace (z <? 0)%Z with false by lia; reflexivity).
+            rewrite Hst in Hoom. apply (mh_step_no_oom s (MFree (Z.to_N z))). rewrite Hoom. reflexivity.
+          - exfalso. destruct h as [hz| |]; try discriminate. destruct off as [oz| |]; try discriminate.
+            destruct ((0 <=? hz) && (0 <=? oz))%Z eqn:Ez; [|discriminate].
+            assert (Hst : vm_step sf maxh gc s (VLoad (AInt hz) (AInt oz)) = mh_step s (MLoad (Z.to_N hz) (Z.to_N oz)))
+              by (destruct sf; cbn [vm_step mh_step]; replace (hz <? 0)%Z with false by lia; replace (oz <? 0)%Z with false by lia; reflexivity).
+            rewrite Hst in Hoom. apply (mh_step_no_oom s (MLoad (Z.to_N hz) (Z.to_N oz))). rewrite Hoom. reflexivity.
+          - exfalso. destruct h as [hz| |]; try discriminate. destruct off as [oz| |]; try discriminate.
+            destruct ((0 <=? hz) && (0 <=? oz))%Z eqn:Ez; [|discriminate].
+            assert (Hst : vm_step sf maxh gc s (VStore (AInt hz) (AInt oz) v) = mh_step s (MStore (Z.to_N hz) (Z.to_N oz) v))
+              by (destruct sf; cbn [vm_step mh_step]; replace (hz <? 0)%Z with false by lia; replace (oz <? 0)%Z with false by lia; reflexivity).
+            rewrite Hst in Hoom. apply (mh_step_no_oom s (MStore (Z.to_N hz) (Z.to_N oz) v)). rewrite Hoom. reflexivity. }
+        destruct Hal as [n ->]. cbn [fst snd]. auto.
+      * destruct m as [n|h|h off|h off v|h]; auto.
+        destruct (snd (vm_step sf maxh gc s o)) as [| | | |e|] eqn:Er; auto.
+        destruct e; auto.
+        (* result OOM while the specification was consulted: it answers RPanic for that hint, contradiction *)
+        exfalso. cbn [spec_step] in Ha. destruct ((n =? 0) || (USIZE <=? n * VALUE_SIZE) || (USIZE <=? (sm_total (live sp) + n) * VALUE_SIZE)); cbn in Ha; discriminate.
+    + rewrite H3. cbn [fst snd]. rewrite H1. split; [|exact HS].
+      destruct (snd (vm_step sf maxh gc s o)); try discriminate. reflexivity.
+  - (* a silent no-op *)
+    rewrite H3, H2, H1. cbn [fst snd]. auto.
+Qed.
+
+Lemma vm_run_cons sf maxh s gc o r :
+  vm_run sf maxh s ((gc, o) :: r) =
+  (fst (vm_run sf maxh (fst (vm_step sf maxh gc s o)) r),
+   snd (vm_step sf maxh gc s o) :: snd (vm_run sf maxh (fst (vm_step sf maxh gc s o)) r)).
+Proof. cbn [vm_run]. destruct (vm_step sf maxh gc s o) as [s1 x]. cbn [fst snd]. destruct (vm_run sf maxh s1 r) as [s2 xs]. reflexivity. Qed.
+
+Lemma vspec_run_cons sf sp gc o r x xs :
+  vspec_run sf sp ((gc, o) :: r) (x :: xs) =
+  (fst (vspec_run sf (fst (vspec_step sf sp o x)) r xs),
+   snd (vspec_step sf sp o x) :: snd (vspec_run sf (fst (vspec_step sf sp o x)) r xs)).
+Proof. cbn [vspec_run]. destruct (vspec_step sf sp o x) as [m1 y]. cbn [fst snd]. destruct (vspec_run sf m1 r xs) as [m2 ys]. reflexivity. Qed.
+
+Lemma vm_refines_history_lemma sf maxh os : forall s sp,
+  maxh < USIZE -> Inv s -> Sim s sp ->
+  Inv (fst (vm_run sf maxh s os))
+  /\ snd (vspec_run sf sp os (snd (vm_run sf maxh s os))) = snd (vm_run sf maxh s os)
+  /\ Sim (fst (vm_run sf maxh s os)) (fst (vspec_run sf sp os (snd (vm_run sf maxh s os)))).
+Proof.
+  induction os as [|[gc o] r IH]; intros s sp Hm HI HS; [cbn; auto|].
+  destruct (vm_spec_refines_lemma sf maxh gc s sp o Hm HI HS) as [HI1 [Hr HS1]].
+  rewrite vm_run_cons. cbn [fst snd]. rewrite vspec_run_cons. cbn [fst snd].
+  destruct (IH _ _ Hm HI1 HS1) as [HI2 [Hr2 HS2]].
+  split; [exact HI2|]. split; [rewrite Hr, Hr2; reflexivity|exact HS2].
+Qed.
